@@ -1805,8 +1805,48 @@ fn huge_stream(ctx: &mut Ctx) {
     }
 }
 
+/// MANY-PASSES stream: runs that need tens to hundreds of PRODUCTIVE passes (a chain of `m + 1` parts
+/// in which the balance cap lets exactly one vertex move per pass with one worker: part `j` holds an
+/// anchor pinned by two friends and, for `j >= 1`, a mover whose only neighbour is the anchor of part
+/// `j - 1`; movers are numbered so that mover `j` is visited before mover `j - 1`). Whatever the number
+/// of passes, the reported gain must equal the cut reduction and the move count cover the relabelled
+/// vertices (per-pass bookkeeping merged into the totals, pass limits, counters). One worker and a few
+/// workers, `max_imbalance` None (cap = heaviest part). Oracle only (the model declines `free`).
+fn many_passes_stream(ctx: &mut Ctx) {
+    let ms: &[usize] = if ctx.quick() { &[7, 70, 300] } else { &[7, 70, 129, 257, 300, 520, 1030] };
+    for &m in ms {
+        for &threads in &[1usize, 3] {
+            let v = |t: usize| m - t; // t in 1..=m
+            let a = |j: usize| m + 3 * j; // j in 0..=m
+            let n = m + 3 * (m + 1);
+            let mut edges: BTreeMap<(usize, usize), i64> = BTreeMap::new();
+            let mut parts = vec![0usize; n];
+            let mut add = |u: usize, w: usize, edges: &mut BTreeMap<(usize, usize), i64>| {
+                edges.insert((u, w), 1);
+                edges.insert((w, u), 1);
+            };
+            for j in 0..=m {
+                add(a(j), a(j) + 1, &mut edges);
+                add(a(j), a(j) + 2, &mut edges);
+                parts[a(j)] = j;
+                parts[a(j) + 1] = j;
+                parts[a(j) + 2] = j;
+            }
+            for t in 1..=m {
+                add(v(t), a(t - 1), &mut edges);
+                parts[v(t)] = t;
+            }
+            let inst = Inst::from_edges(n, threads, None, &edges, vec![1; n], parts);
+            ctx.count(&format!("many_passes:m={}", m));
+            run_op(ctx, &inst.free_op());
+        }
+    }
+    ctx.notes.push("MANY-PASSES stream: chains of m+1 parts in which one worker can move exactly one vertex per pass (m = 7, 70, 300; thorough up to 1030), 1 and 3 workers, judged by the accounting oracle".to_string());
+}
+
 pub fn generate(ctx: &mut Ctx) {
     large_stream(ctx);
+    many_passes_stream(ctx);
     hub_stream(ctx);
     huge_stream(ctx);
     // ---- controlled random schedules: discovery run, then recorded replay
